@@ -162,7 +162,8 @@ type shown = SNone | SZ | SBytes | SBool | SSym
 let () =
   let cases = Stdlib.Sys.argv.(1) and hout = Stdlib.Sys.argv.(2) and outf = Stdlib.Sys.argv.(3) in
   let cfg = { Outcome.dbg = Stdlib.Sys.argv.(4) = "1"; ovf = Stdlib.Sys.argv.(5) = "1" } in
-  let spec_mode = Array.length Stdlib.Sys.argv > 6 && Stdlib.Sys.argv.(6) = "spec" in
+  let shift_mode = Array.length Stdlib.Sys.argv > 6 && Stdlib.Sys.argv.(6) = "specshift" in
+  let spec_mode = Array.length Stdlib.Sys.argv > 6 && (Stdlib.Sys.argv.(6) = "spec" || shift_mode) in
   load_decodes hout;
   let loop_fuel = nat_of_int 200000 in
   let ic = open_in cases and oc = open_out outf in
@@ -176,6 +177,44 @@ let () =
     | "case" :: _ -> m := None; output_string oc (l ^ "\n")
     | ["end"] -> output_string oc "end\n"
     | "dump" :: _ -> (match !m with Some mm -> dump oc mm.Machine.st | None -> output_string oc "r nomachine\n")
+    | "step" :: _ when spec_mode ->
+      (match !m with
+       | None -> output_string oc "r nomachine\n"
+       | Some mm ->
+         let st = mm.Machine.st in
+         let rip = st.State.regs Iced.RIP in
+         (match Mem.mem_read_executable_bytes rip st with
+          | (Outcome.Ok bytes, _) ->
+            (try
+              (match decode rip bytes with
+               | None -> output_string oc "r fault decode\n"
+               | Some i ->
+                 (match CodeSem.code_sem i.Iced.i_code with
+                  | None -> output_string oc "r unsupported\n"
+                  | Some sm ->
+                    let s1 = State.set_regs st (State.upd st.State.regs Iced.RIP i.Iced.i_next_ip) in
+                    (* specshift: the emulator's stack convention is the hardware's conjugated by RSP+size *)
+                    let sz = if not shift_mode then 0 else
+                      (match sm with
+                       | ISA.SPush w | ISA.SPop w -> int_of_z w / 8
+                       | ISA.SPushq | ISA.SCallRel | ISA.SCallRm | ISA.SRet -> 8
+                       | _ -> 0) in
+                    let m64 = BinInt.Z.pow (z_of_int 2) (z_of_int 64) in
+                    let addrsp (s : State.mstate) d =
+                      State.set_regs s (State.upd s.State.regs Iced.RSP
+                        (BinInt.Z.modulo (BinInt.Z.add (BinInt.Z.add (s.State.regs Iced.RSP) m64) (z_of_int d)) m64)) in
+                    let s1 = if sz = 0 then s1 else addrsp s1 sz in
+                    (match ISA.isa_exec sm i s1 with
+                     | ISA.IDone (s', undef) ->
+                       let s' = if sz = 0 then s' else addrsp s' (- sz) in
+                       m := Some { mm with Machine.st = s' };
+                       Printf.fprintf oc "r ok undef=%s\n" (hex_of_z undef)
+                     | ISA.IFault f ->
+                       Printf.fprintf oc "r fault %s\n"
+                         (match f with ISA.FMem -> "mem" | ISA.FDivide -> "divide" | ISA.FAlign -> "align"
+                                     | ISA.FStack -> "stack" | ISA.FBranch -> "branch" | ISA.FUnsupported -> "unsupported"))))
+            with Missing_decode k -> Printf.fprintf oc "r model-missing-decode %s\n" k)
+          | _ -> output_string oc "r fault fetch\n"))
     | "render" :: _ -> (match !m with Some _ -> output_string oc "r render ok ok ok\n" | None -> output_string oc "r nomachine\n")
     | opn :: args ->
       let mk : (Machine.op * shown) option =
